@@ -669,7 +669,12 @@ func c06Grpc(c *Ctx, prop string, sfx *streamFx) {
 			if strings.HasSuffix(proto_, "gzip") && c.Rng.Intn(3) > 0 {
 				z := gzipBytes(enc)
 				if bad < 0 && c.Rng.Intn(8) == 0 && len(z) > 10 {
-					// a frame whose gzip checksum is wrong: inflates completely, then fails
+					// a frame whose gzip checksum is wrong: inflates completely, then fails; its message sets
+					// a field no other message of the sweep sets
+					ghost := reqWithData(fx, d)
+					ghost.Set(ghost.Descriptor().Fields().ByName("name"), protoreflect.ValueOfString("ghost-of-a-failed-frame"))
+					genc, _ := proto.Marshal(ghost)
+					z = gzipBytes(genc)
 					z = append([]byte(nil), z...)
 					z[len(z)-6] ^= 0x5a
 					bad = j
@@ -776,7 +781,7 @@ func c06Grpc(c *Ctx, prop string, sfx *streamFx) {
 		}
 		ok := len(sfx.got) == complete
 		for k := 0; ok && k < complete; k++ {
-			ok = bytes.Equal(sfx.got[k], msgs[k])
+			ok = bytes.Equal(sfx.got[k], msgs[k]) && (k >= len(sfx.gotSizes) || sfx.gotSizes[k] == proto.Size(reqWithData(fx, msgs[k])))
 		}
 		wantFinal := "eof"
 		if !atBoundary {
@@ -787,6 +792,24 @@ func c06Grpc(c *Ctx, prop string, sfx *streamFx) {
 		}
 		if !ok || classifyFinal(sfx.final) != wantFinal {
 			c.SpecFail(kind, in, fmt.Sprintf("%d messages then %s (%s)", len(sfx.got), classifyFinal(sfx.final), sfx.final), fmt.Sprintf("%d messages then %s", complete, wantFinal), prop+"/"+kind+"/sequence", "the handler does not receive exactly the client's frames followed by a clean end")
+		}
+		// right after a frame that failed to decompress: the next compressed call (same goroutine, same
+		// pooled buffers) must see exactly its own messages
+		if bad >= 0 {
+			for rep := 0; rep < 3; rep++ {
+				d1, d2 := []byte{1, 2, 3, byte(rep)}, bytes.Repeat([]byte{byte(40 + rep)}, 70)
+				e1, _ := proto.Marshal(reqWithData(fx, d1))
+				e2, _ := proto.Marshal(reqWithData(fx, d2))
+				w2 := append(grpcFrame(1, gzipBytes(e1)), grpcFrame(1, gzipBytes(e2))...)
+				sfx.reset(nil)
+				_, pn2 := sfx.serveStream("POST", "/verif.v1.Svc/Up", hdr, w2, nil, false, h2)
+				in2 := fmt.Sprintf("%s: two valid gzip frames right after a call whose gzip frame did not decompress (%s)", proto_, in)
+				c.count(kind, in2, true)
+				if pn2 != nil || len(sfx.got) != 2 || !bytes.Equal(sfx.got[0], d1) || !bytes.Equal(sfx.got[1], d2) || sfx.gotSizes[0] != len(e1) || sfx.gotSizes[1] != len(e2) {
+					c.SpecFail(kind, in2, fmt.Sprintf("%d messages %x of sizes %v panic=%v final=%s", len(sfx.got), sfx.got, sfx.gotSizes, pn2, sfx.final), fmt.Sprintf("the two messages, sizes %d and %d", len(e1), len(e2)), prop+"/"+kind+"/sequence-after-failed-frame", "a message is merged with bytes left over from an earlier call's failed decompression")
+					break
+				}
+			}
 		}
 		// final status after the messages (valid streams): Reply frame then status
 		if cut < 0 && bad < 0 {
